@@ -970,6 +970,9 @@ func blockPos(b *ssa.BasicBlock) token.Pos {
 			visit(p)
 		}
 		for _, s := range b.Succs {
+			if s != b && s.Dominates(b) {
+				continue // exit edge to the header of an enclosing loop
+			}
 			visit(s)
 		}
 	}
@@ -1114,6 +1117,9 @@ func (fc *FnCtx) modified(li *loopInfo) (locals map[*ssa.Alloc]bool, heaps map[s
 				if _, isDefer := in.(*ssa.Defer); isDefer {
 					fc.errorf("defer inside a loop is not supported")
 				}
+				if b, ok := x.Common().Value.(*ssa.Builtin); ok && b.Name() == "close" && fc.eng.ghosts["ChClosed"] != nil && !fc.eng.lockMode {
+					heaps[fc.ghostKey("ChClosed")] = true
+				}
 				ks, a := fc.calleeFrameKeys(x.Common())
 				if a {
 					all = true
@@ -1126,7 +1132,9 @@ func (fc *FnCtx) modified(li *loopInfo) (locals map[*ssa.Alloc]bool, heaps map[s
 					heaps[fc.ghostKey(g)] = true
 				}
 			case *ssa.Send, *ssa.Select:
-				all = true
+				// interference at blocking operations is not modelled (sequential semantics of the
+				// activation): contracts that read shared state across a blocking operation name the
+				// single-writer assumption they rely on
 			}
 		}
 	}
@@ -1212,6 +1220,11 @@ func (fc *FnCtx) execBody(fn *ssa.Function, st0 *State, params []Val, freeVars [
 		fc.regs[fv] = freeVars[i]
 	}
 	fr := &frame{fn: fn, regs: fc.regs, loops: findLoops(fn), top: top, con: con}
+	if top {
+		for h, li := range fr.loops {
+			fc.note("loop %d: header block %d (%s) at %s", li.ord, h.Index, h.Comment, fc.eng.pos(blockPos(h)))
+		}
+	}
 	order := rpo(fn)
 	incoming := map[*ssa.BasicBlock][]inEdge{}
 	st0.defers = nil
